@@ -1,4 +1,7 @@
 /* d_float.c — drivers "float" (C15) and "utf8" (C16). */
+#define _GNU_SOURCE
+#include <sys/mman.h>
+#include <unistd.h>
 #include "vh.h"
 
 static uint32_t fbits(float f) { uint32_t b; memcpy(&b, &f, 4); return b; }
@@ -304,6 +307,64 @@ static uint32_t rand_scalar(struct vh_rng* r) {
   }
 }
 
+/* Texts of more than 2^32 code points: 2 MiB of valid UTF-8 (a memfd) mapped back to back over a reserved range, so the
+ * text costs 2 MiB of memory however long it is. The block starts with 4096 ASCII bytes (a text may end inside them and
+ * stay valid) followed by 16-byte groups of 10 code points (1-, 2-, 3- and 4-byte sequences and six ASCII bytes).
+ * descriptor: 0x80, kind */
+enum { GT_BLOCK = 2 << 20, GT_ASCII = 4096 };
+static uint64_t g_giant_texts;
+static void utf8_giant_case(int kind) {
+  uint8_t desc[2] = {0x80, (uint8_t)kind};
+  if (!vh_case(desc, 2)) return;
+  static const char* const kn[] = {"2^32 + 3 ASCII bytes", "mixed 1-4 byte sequences, 2^32 + 5 code points", "mixed sequences cut inside the last multi-byte sequence, beyond byte 2^32 (invalid)", "2^32 - 1 ASCII bytes", "2^32 ASCII bytes", "2^33 + 1 ASCII bytes"};
+  bool ascii = kind == 0 || kind >= 3;
+  int fd = memfd_create("vh-giant-text", 0);
+  if (fd < 0 || ftruncate(fd, GT_BLOCK)) vh_die("giant text: memfd failed");
+  uint8_t* blk = mmap(NULL, GT_BLOCK, PROT_READ | PROT_WRITE, MAP_SHARED, fd, 0);
+  if (blk == MAP_FAILED) vh_die("giant text: mmap of the block failed");
+  for (size_t i = 0; i < GT_ASCII; i++) blk[i] = (uint8_t)('a' + i % 26);
+  static const uint8_t grp[16] = {'x', 0xc3, 0xa9, 0xe2, 0x82, 0xac, 0xf0, 0x90, 0x8d, 0x88, 'q', 'r', 's', 't', 'u', 'v'};
+  for (size_t i = GT_ASCII; i < GT_BLOCK; i++) blk[i] = ascii ? (uint8_t)('A' + i % 23) : grp[i & 15];
+  size_t blk_cnt = 0;
+  if (!ref_utf8(blk, GT_BLOCK, &blk_cnt)) vh_die("giant text: the block is not valid UTF-8");
+  const uint64_t per_block = ascii ? GT_BLOCK : GT_ASCII + (uint64_t)(GT_BLOCK - GT_ASCII) / 16 * 10;
+  if (blk_cnt != per_block) vh_die("giant text: block count %zu != %llu", blk_cnt, (unsigned long long)per_block);
+  /* choose the length */
+  uint64_t len, want;
+  const uint64_t T = (uint64_t)1 << 32;
+  if (ascii) { len = kind == 0 ? T + 3 : kind == 3 ? T - 1 : kind == 4 ? T : 2 * T + 1; want = len; }
+  else {
+    uint64_t blocks = (T + 5) / per_block, rest = T + 5 - blocks * per_block; /* rest < per_block code points from the next block */
+    uint64_t tail;
+    if (rest <= GT_ASCII) tail = rest;
+    else { uint64_t g = (rest - GT_ASCII) / 10, m = (rest - GT_ASCII) % 10; static const unsigned off[10] = {0, 1, 3, 6, 10, 11, 12, 13, 14, 15}; tail = GT_ASCII + g * 16 + off[m]; }
+    len = blocks * GT_BLOCK + tail; want = T + 5;
+    if (kind == 2) { /* end two bytes into a 3- or 4-byte sequence */
+      uint64_t pos = len; while ((pos & 15) != 3 || pos % GT_BLOCK < GT_ASCII) pos++; /* group offset 3 = the E2 lead */
+      len = pos + 2; want = 0;
+    }
+  }
+  size_t span = (size_t)((len + GT_BLOCK - 1) / GT_BLOCK) * GT_BLOCK;
+  uint8_t* base = mmap(NULL, span, PROT_NONE, MAP_PRIVATE | MAP_ANONYMOUS | MAP_NORESERVE, -1, 0);
+  if (base == MAP_FAILED) vh_die("giant text: reserving %zu bytes of address space failed", span);
+  for (size_t o = 0; o < span; o += GT_BLOCK)
+    if (mmap(base + o, GT_BLOCK, PROT_READ, MAP_SHARED | MAP_FIXED, fd, 0) == MAP_FAILED) vh_die("giant text: tiling failed at %zu", o);
+  cbor_item_t* it = cbor_new_definite_string();
+  if (!it) vh_die("giant text: item allocation failed");
+  cbor_string_set_handle(it, base, (size_t)len);
+  size_t got = cbor_string_codepoint_count(it);
+  if (got != want)
+    vh_violation("codepoint-count-differs", "cbor_string_set_handle of a %llu-byte text (%s): cbor_string_codepoint_count = %zu, must be %llu", (unsigned long long)len, kn[kind], got, (unsigned long long)want);
+  if (cbor_string_length(it) != len) vh_violation("length-altered", "a %llu-byte text reports length %zu", (unsigned long long)len, cbor_string_length(it));
+  if (cbor_string_handle(it) != base) vh_violation("content-altered", "the handle of the giant text is not the block attached");
+  cbor_string_set_handle(it, NULL, 0); /* the mapping is not the allocator's to free */
+  cbor_decref(&it);
+  munmap(base, span); munmap(blk, GT_BLOCK); close(fd);
+  if (ta_live_count()) { vh_violation("leak", "%zu block(s) left", ta_live_count()); ta_forget_all(); }
+  g_giant_texts++;
+  vh_nontrivial(vh_hash(desc, 2));
+}
+
 static void utf8_run(void) {
   if (strcmp(O.prop, "C16")) vh_die("driver utf8: --prop must be C16");
   ref_selftest();
@@ -421,7 +482,12 @@ static void utf8_run(void) {
       }
     }
     vh_set_exhaustive(false);
+  } else if (!strcmp(st, "giant")) {
+    int nk = O.thorough ? 6 : 3;
+    for (int k = 0; k < nk; k++) if (k % O.nshards == O.shard) utf8_giant_case(k);
+    vh_set_exhaustive(false);
   } else vh_die("driver utf8: unknown stage '%s'", st);
+  vh_count_dyn("giant_texts_of_2^32_code_points_or_more", g_giant_texts);
   vh_count_dyn("valid_texts", g_valid);
   vh_count_dyn("invalid_texts", g_invalid);
   vh_count_dyn("entry.build_stringn", g_entry[0]);
@@ -437,6 +503,7 @@ static void utf8_exec(const uint8_t* d, size_t n) {
   ref_selftest();
   ta_install();
   if (n < 1) return;
+  if (n == 2 && d[0] == 0x80) { utf8_giant_case(d[1]); return; }
   utf8_case(d + 1, n - 1, d[0]);
 }
 const struct vh_driver drv_utf8 = {"utf8", utf8_run, utf8_exec, "UTF-8 code point counts (C16)"};
